@@ -8,50 +8,59 @@ V = '/verif'
 sys.path.insert(0, V)
 names = [a for a in sys.argv[1:] if not a.startswith('-')] or sorted(os.path.basename(p)[:-5] for p in glob.glob(V + '/selftest/benign/*.diff'))
 results = {}
-for name in names:
-    wt = tempfile.mkdtemp(prefix='selft.', dir='/tmp')
-    os.rmdir(wt)
-    subprocess.check_call(['git', '-C', '/repo', 'worktree', 'add', '-q', '--detach', wt, 'HEAD'])
-    try:
-        shutil.copy('/repo/Cargo.lock', os.path.join(wt, 'Cargo.lock'))
-        subprocess.check_call(['git', '-C', wt, 'apply', os.path.join(V, 'selftest', 'benign', name + '.diff')])
-        code = '''
-import sys
-sys.path.insert(0, %r)
-from vlib import engine, props
-import vlib.allrules
-ctx = engine.Ctx(%r, 'thorough')
-known = {k['key'] for k in engine.load_known() if k.get('status') == 'known'}
-bad = []
-for cfg in ('all', 'default'):
-    for rid in sorted(engine.RULES):
-        ru = engine.RULES[rid]
-        if cfg not in ru.configs:
-            continue
+def one(name):
+        wt = tempfile.mkdtemp(prefix='selft.', dir='/tmp')
+        os.rmdir(wt)
+        subprocess.check_call(['git', '-C', '/repo', 'worktree', 'add', '-q', '--detach', wt, 'HEAD'])
         try:
-            res = ru.fn(ctx.prog(cfg))
-        except Exception as e:
-            bad.append('%%s[%%s] CRASH %%r' %% (rid, cfg, e)); continue
-        if len(res.instances) < ru.floor_for(cfg):
-            bad.append('%%s[%%s] BELOW FLOOR %%d<%%d' %% (rid, cfg, len(res.instances), ru.floor_for(cfg)))
-        for v in res.violations:
-            if v.key not in known:
-                bad.append('%%s[%%s] %%s | %%s' %% (rid, cfg, v.key, v.msg[:160]))
-for b in sorted(set(bad)):
-    print('FALSE-ALARM', b)
-print('DONE', len(set(bad)))
-''' % (V, wt)
-        p = subprocess.run([sys.executable, '-c', code], cwd=V, stdout=subprocess.PIPE, stderr=subprocess.STDOUT, text=True)
-        out = [l for l in p.stdout.splitlines() if l.startswith(('FALSE-ALARM', 'DONE'))]
-        if not any(l.startswith('DONE') for l in out):
-            out.append('ERROR ' + p.stdout[-600:])
-        results[name] = out
-        print(name, '->', out[-1] if out else '?')
-        for l in out[:-1]:
-            print('    ', l[:300])
-    finally:
-        subprocess.call(['git', '-C', '/repo', 'worktree', 'remove', '--force', wt])
-        h = hashlib.sha1(wt.encode()).hexdigest()[:8]
-        for pre in ('target-all-', 'target-default-', 'target-witness-'):
-            shutil.rmtree(os.path.join(V, '.cache', pre + h), ignore_errors=True)
+            shutil.copy('/repo/Cargo.lock', os.path.join(wt, 'Cargo.lock'))
+            subprocess.check_call(['git', '-C', wt, 'apply', os.path.join(V, 'selftest', 'benign', name + '.diff')])
+            code = '''
+    import sys
+    sys.path.insert(0, %r)
+    from vlib import engine, props
+    import vlib.allrules
+    ctx = engine.Ctx(%r, 'thorough')
+    known = {k['key'] for k in engine.load_known() if k.get('status') == 'known'}
+    bad = []
+    for cfg in ('all', 'default'):
+        for rid in sorted(engine.RULES):
+            ru = engine.RULES[rid]
+            if cfg not in ru.configs:
+                continue
+            try:
+                res = ru.fn(ctx.prog(cfg))
+            except Exception as e:
+                bad.append('%%s[%%s] CRASH %%r' %% (rid, cfg, e)); continue
+            if len(res.instances) < ru.floor_for(cfg):
+                bad.append('%%s[%%s] BELOW FLOOR %%d<%%d' %% (rid, cfg, len(res.instances), ru.floor_for(cfg)))
+            for v in res.violations:
+                if v.key not in known:
+                    bad.append('%%s[%%s] %%s | %%s' %% (rid, cfg, v.key, v.msg[:160]))
+    for b in sorted(set(bad)):
+        print('FALSE-ALARM', b)
+    print('DONE', len(set(bad)))
+    ''' % (V, wt)
+            p = subprocess.run([sys.executable, '-c', textwrap.dedent(code)], cwd=V, stdout=subprocess.PIPE, stderr=subprocess.STDOUT, text=True)
+            out = [l for l in p.stdout.splitlines() if l.startswith(('FALSE-ALARM', 'DONE'))]
+            if not any(l.startswith('DONE') for l in out):
+                out.append('ERROR ' + p.stdout[-600:])
+            results[name] = out
+            print(name, '->', out[-1] if out else '?')
+            for l in out[:-1]:
+                print('    ', l[:300])
+        finally:
+            subprocess.call(['git', '-C', '/repo', 'worktree', 'remove', '--force', wt])
+            h = hashlib.sha1(wt.encode()).hexdigest()[:8]
+            for pre in ('target-all-', 'target-default-', 'target-witness-'):
+                shutil.rmtree(os.path.join(V, '.cache', pre + h), ignore_errors=True)
+from concurrent.futures import ThreadPoolExecutor
+import textwrap
+with ThreadPoolExecutor(int(os.environ.get('SELFTEST_JOBS', '5'))) as ex:
+    list(ex.map(one, names))
+if len(sys.argv) > 1:
+    try:
+        old = json.load(open(V + '/selftest/benign-results.json')); old.update(results); results = old
+    except Exception:
+        pass
 json.dump(results, open(V + '/selftest/benign-results.json', 'w'), indent=1, sort_keys=True)
